@@ -12,7 +12,7 @@ def strip_generics(path):
     prev = None
     while prev != path:
         prev = path
-        path = _GEN.sub("", path)
+        path = _GEN.sub(lambda m: m.group(0) if " as " in m.group(0) else "", path)
     return path
 
 
